@@ -19,7 +19,23 @@ import json
 import os
 import re
 
-from vlib import read_jsonl, canon_hash
+from vlib import canon_hash
+
+
+def read_jsonl(path):
+    """one JSON value per line; a harness that died mid-write leaves a truncated last line: skip it"""
+    out = []
+    if not os.path.exists(path):
+        return out
+    for line in open(path, errors="replace"):
+        line = line.strip()
+        if not line:
+            continue
+        try:
+            out.append(json.loads(line))
+        except ValueError:
+            continue
+    return out
 
 VARIANTS = {  # name -> (drain_all, barrier)
     "repaired": (True, True),
